@@ -28,7 +28,8 @@ def main():
     run = O.Run("c10_corrupt")
     N = run.budget(3, 12)
     run.scope = ("%d seeded dumped files: every proper prefix x 4 load paths; every byte of the header, the descriptors and "
-                 "the key block substituted by {0, old^1, old+1, 255, same-width type codes}; second object on a stream" % N)
+                 "the key block substituted by {0, old^1, old+1, 255, same-width type codes}; every type code replaced; each column "
+                 "made one element longer/shorter than its partner (32- and 64-bit offsets); second object on a stream" % N)
     d = tempfile.mkdtemp(prefix="vf_c10_")
     try:
         for k in range(N):
@@ -121,6 +122,64 @@ def main():
                             break
                 if run.violations and any("[key of an optional" not in v["clause"] for v in run.violations):
                     break
+            # ---- columns that disagree with each other, with 32- and with 64-bit offset columns
+            try:
+                import kastore
+            except ImportError:
+                kastore = None
+            if kastore is not None:
+                store = {kk: np.array(vv) for kk, vv in kastore.load(p, read_all=True).items()}
+                for wide in (False, True):
+                    base = dict(store)
+                    if wide:
+                        for kk in base:
+                            if kk.endswith("_offset"):
+                                base[kk] = base[kk].astype(np.uint64)
+                    kastore.dump(base, q)
+                    run.case()
+                    got, err = try_load(q, "tables")
+                    if got is None or not O.same_tables(got, ref):
+                        run.violation("a consistent file loads to the same object with 32- and with 64-bit offset columns",
+                                      dict(desc, wide=wide), err or "different object", "identical")
+                        break
+                    muts = []
+                    for kk in sorted(base):
+                        if kk.endswith("_offset"):
+                            data_key = kk[: -len("_offset")]
+                            if data_key in base:
+                                a = base[data_key]
+                                muts.append(("%s one element longer than its last offset" % data_key, data_key, np.concatenate([a, np.zeros(1, dtype=a.dtype)])))
+                                if len(a):
+                                    muts.append(("%s one element shorter than its last offset" % data_key, data_key, a[:-1]))
+                            o = base[kk]
+                            # (the population table's only column defines its row count: a longer or shorter offset
+                            # column there is just another number of rows; same for the first provenance column)
+                            defines_rows = kk in ("populations/metadata_offset", "provenances/timestamp_offset", "provenances/record_offset")
+                            if not defines_rows:
+                                muts.append(("%s one entry longer" % kk, kk, np.concatenate([o, o[-1:]])))
+                            if len(o) > 1 and not defines_rows:
+                                muts.append(("%s one entry shorter" % kk, kk, o[:-1]))
+                                o2 = o.copy()
+                                o2[-1] += 1
+                                muts.append(("%s last entry + 1" % kk, kk, o2))
+                        elif "/" in kk and not kk.endswith("_schema") and kk.split("/")[0] in ("nodes", "edges", "sites", "mutations", "migrations", "individuals") \
+                                and (kk + "_offset") not in base and base[kk].ndim == 1 and len(base[kk]):
+                            muts.append(("%s one row short" % kk, kk, base[kk][:-1]))
+                    for what, kk, arr in muts:
+                        dd = dict(base)
+                        dd[kk] = arr
+                        kastore.dump(dd, q)
+                        for how in ("tables", "ts"):
+                            run.case()
+                            got, err = try_load(q, how)
+                            if got is not None:
+                                run.violation("a file whose columns disagree (data length vs last offset, row counts) is rejected",
+                                              dict(desc, what=what, offsets_64bit=wide, path=how), "loaded", "exception")
+                                break
+                        if run.violations and any("[key of an optional" not in v["clause"] for v in run.violations):
+                            break
+                    if run.violations and any("[key of an optional" not in v["clause"] for v in run.violations):
+                        break
             # ---- second object on a stream truncated
             with open(q, "wb") as f:
                 f.write(raw)
@@ -142,4 +201,4 @@ def main():
 
 
 if __name__ == "__main__":
-    main()
+    O.run_main(main)
